@@ -393,6 +393,7 @@ def scripted_app(scripts, records, driver: Driver, default=None):
                 await Checkpoint()
                 rec.setdefault("marks", []).append(st[1]())
             elif st[0] == "raise":
+                rec["crashed"] = True
                 raise AppBoom()
             elif st[0] == "return":
                 break
